@@ -6,6 +6,7 @@ package h
 //	                           incarnation c (default 1); waits (bounded, 5 s) for that response first
 //	sendPingCur {}             broker-initiated ping whose request id is the id of the latest client ping the
 //	                           broker received on the current incarnation (an id the client itself has in use)
+//	bpingEvery  {ms, n}        n broker-initiated pings, one every ms milliseconds, sent in the background
 //	stallWatch  {ms, n, mode}  scheduling-stall detector: a goroutine sleeping ms (default 2) milliseconds in a
 //	                           loop logs "Stall" whenever a sleep overshoots by more than n (default 10)
 //	                           milliseconds; mode "off" stops it (it stops by itself after 120 s)
@@ -26,6 +27,29 @@ func init() {
 	ExtraSteps["atMs"] = stepAtMs
 	ExtraSteps["sendPingCur"] = stepSendPingCur
 	ExtraSteps["stallWatch"] = stepStallWatch
+	ExtraSteps["bpingEvery"] = stepBPingEvery
+}
+
+// bpingEvery {ms, n}: the broker sends n keep-alive pings of its own on the current incarnation, one every ms milliseconds, in the
+// background (a broker pings at the interval the client announced, whatever else it does); it stops when that link is down.
+func stepBPingEvery(d *Driver, st *Step, g string) {
+	inc := d.b.CurInc()
+	if inc == nil {
+		return
+	}
+	period := time.Duration(st.Ms) * time.Millisecond
+	n := st.N
+	go func() {
+		for k := 0; k < n; k++ {
+			select {
+			case <-inc.closed:
+				return
+			case <-time.After(period):
+			}
+			rid := 100001 + 2*k
+			inc.sendSync(&message.Ping{RequestID: message.RequestID(rid)}, "BSendPing", "rid", rid)
+		}
+	}()
 }
 
 func stepAtMs(d *Driver, st *Step, g string) {
